@@ -5,7 +5,7 @@ From LCM Require Import Base.Prelude Base.Arr Base.ArrOps Model.Dispatchers Mode
                         Gen.Argmax Gen.CCV Gen.ChoiceAxes Gen.SimulateKernels.
 From LCM Require Import Spec.Lang Spec.Bellman Proofs.ArrLemmas Proofs.ArrLemmas2 Proofs.Spec_Algebra
                         Proofs.C11_Affine Proofs.C11_Horizon Proofs.C11_ModelFunctions Proofs.C14_FunRep Proofs.C14_Refine Proofs.C18_Core Proofs.C18_Spec Proofs.C19_Dispatch Proofs.C19_DispatchG Proofs.C01_Compose Proofs.C01_MaxCompose
-                        Proofs.C01_Period Proofs.C02_ArgmaxAll.
+                        Proofs.C01_Period Proofs.C01_Agents Proofs.C02_ArgmaxAll.
 Local Open Scope nat_scope.
 
 (* ---- row-major positions -------------------------------------------------------------------------------------- *)
@@ -62,44 +62,6 @@ Proof.
 Qed.
 End FirstMax.
 
-(* ---- utility and feasibility over the continuous choice grid, at arbitrary values of the other variables -------- *)
-Section Tables.
-Variables (dst dch cst cch : list (string * grid)) (uf : list Q -> val * bool).
-Variable prevals : list Q.
-Hypothesis Hlen : length prevals = length (dst ++ dch ++ cst).
-Let pre := map (fun v => scalar v) prevals.
-Let args0 := (pre ++ map (fun g => vec g) (gv cch))%list.
-
-Lemma length_pre' : length pre = length (dst ++ dch ++ cst).
-Proof. unfold pre. now rewrite map_length. Qed.
-Lemma args0_form' : args0 = (pre ++ map (fun g => vec g) (gv cch) ++ [])%list.
-Proof. unfold args0. now rewrite app_nil_r. Qed.
-
-Lemma U_table_at : Uarr dst dch cst cch uf args0
-  = tabulate (sizes cch) (fun cidx => fst (uf (prevals ++ map snd (env_of_idx cch cidx)))).
-Proof.
-  pose proof (bpmG_on_grids_shape (fun a => scalar (fst (ufa uf a))) (fun a => conj eq_refl eq_refl) pre (gv cch) []) as [W S].
-  rewrite length_pre', <- args0_form' in W, S. fold (Uarr dst dch cst cch uf args0) in W, S.
-  rewrite (arr_is_tabulate VUndef _ W), S, lengths_gv.
-  unfold tabulate. f_equal. apply map_ext_in. intros cidx Hc. apply in_indices in Hc.
-  pose proof (bpmG_on_grids_entry VUndef (fun a => scalar (fst (ufa uf a))) (fun a => conj eq_refl eq_refl) pre (gv cch) [] cidx) as E.
-  rewrite length_pre', <- args0_form' in E. fold (Uarr dst dch cst cch uf args0) in E. rewrite E by (now rewrite lengths_gv).
-  unfold ufa. rewrite app_nil_r. unfold pre. rewrite <- map_app, scalars_get, pick_gv by exact Hc. reflexivity.
-Qed.
-
-Lemma F_table_at : Farr dst dch cst cch uf args0
-  = tabulate (sizes cch) (fun cidx => snd (uf (prevals ++ map snd (env_of_idx cch cidx)))).
-Proof.
-  pose proof (bpmG_on_grids_shape (fun a => scalar (snd (ufa uf a))) (fun a => conj eq_refl eq_refl) pre (gv cch) []) as [W S].
-  rewrite length_pre', <- args0_form' in W, S. fold (Farr dst dch cst cch uf args0) in W, S.
-  rewrite (arr_is_tabulate false _ W), S, lengths_gv.
-  unfold tabulate. f_equal. apply map_ext_in. intros cidx Hc. apply in_indices in Hc.
-  pose proof (bpmG_on_grids_entry false (fun a => scalar (snd (ufa uf a))) (fun a => conj eq_refl eq_refl) pre (gv cch) [] cidx) as E.
-  rewrite length_pre', <- args0_form' in E. fold (Farr dst dch cst cch uf args0) in E. rewrite E by (now rewrite lengths_gv).
-  unfold ufa. rewrite app_nil_r. unfold pre. rewrite <- map_app, scalars_get, pick_gv by exact Hc. reflexivity.
-Qed.
-End Tables.
-
 (* ---- compute_ccv_policy (Gen/CCV.v) on tabulated utility / feasibility ------------------------------------------- *)
 Section Policy.
 Variables (cshape : list nat) (U : list nat -> val) (Fm : list nat -> bool).
@@ -148,74 +110,6 @@ Proof.
   split; [now apply unravel_in_bounds|]. split; [exact Hok|exact Hv].
 Qed.
 End Policy.
-
-(* ---- the arguments of one agent: every state column sliced at the agent's row ------------------------------------ *)
-Definition at_row (cols : list (list Q)) (i : nat) : list Q := map (fun c : list Q => nth i c 0%Q) cols.
-Definition vecs (cols : list (list Q)) : list qarr := map (fun c => vec c) cols.
-Definition scalars (vals : list Q) : list qarr := map (fun v => scalar v) vals.
-
-Lemma length_slice_at args mapped i : length (slice_at args mapped i) = length args.
-Proof.
-  unfold slice_at.
-  assert (L : forall l a, length (fold_left (fun acc p => upd acc p (qslice (nth p args dflt_arr) i)) l a) = length a).
-  { induction l as [|q qs IH]; intros a; [reflexivity|]. cbn [fold_left]. rewrite IH. apply length_upd. }
-  apply L.
-Qed.
-
-Lemma existsb_eqb_in p l : existsb (Nat.eqb p) l = true <-> In p l.
-Proof.
-  rewrite existsb_exists. split.
-  - intros (x & Hx & E). apply Nat.eqb_eq in E. now subst.
-  - intros H. exists p. split; [exact H|apply Nat.eqb_refl].
-Qed.
-
-Lemma slice_at_blocks (colsA colsC : list (list Q)) (B D : list qarr) i :
-  slice_at (vecs colsA ++ B ++ vecs colsC ++ D) (seq 0 (length colsA) ++ seq (length colsA + length B) (length colsC)) i
-  = (scalars (at_row colsA i) ++ B ++ scalars (at_row colsC i) ++ D)%list.
-Proof.
-  set (args := (vecs colsA ++ B ++ vecs colsC ++ D)%list).
-  set (mapped := (seq 0 (length colsA) ++ seq (length colsA + length B) (length colsC))%list).
-  assert (LA : length (vecs colsA) = length colsA) by (unfold vecs; now rewrite map_length).
-  assert (LC : length (vecs colsC) = length colsC) by (unfold vecs; now rewrite map_length).
-  assert (LA' : length (scalars (at_row colsA i)) = length colsA) by (unfold scalars, at_row; now rewrite !map_length).
-  assert (LC' : length (scalars (at_row colsC i)) = length colsC) by (unfold scalars, at_row; now rewrite !map_length).
-  apply (nth_ext _ _ dflt_arr dflt_arr).
-  - rewrite length_slice_at. unfold args. rewrite !app_length. lia.
-  - intros q Hq. rewrite length_slice_at in Hq. rewrite slice_at_spec by exact Hq.
-    unfold args in Hq. rewrite !app_length, LA, LC in Hq.
-    destruct (Nat.lt_ge_cases q (length colsA)) as [H1|H1].
-    + (* block A *)
-      replace (existsb (Nat.eqb q) mapped) with true
-        by (symmetry; apply existsb_eqb_in; unfold mapped; apply in_or_app; left; apply in_seq; lia).
-      unfold args. rewrite !app_nth1 by lia. unfold vecs, scalars, at_row.
-      rewrite (nth_indep _ dflt_arr (vec [])) by (rewrite map_length; lia). rewrite (map_nth (fun c => vec c)).
-      rewrite (nth_indep (map _ (map _ colsA)) dflt_arr (scalar (nth i [] 0%Q))) by (rewrite !map_length; lia).
-      rewrite map_map. rewrite (map_nth (fun c => scalar (nth i c 0%Q))). apply qslice_vec.
-    + destruct (Nat.lt_ge_cases q (length colsA + length B)) as [H2|H2].
-      * (* block B *)
-        replace (existsb (Nat.eqb q) mapped) with false.
-        2:{ symmetry. apply not_true_is_false. intros E. apply existsb_eqb_in in E. unfold mapped in E.
-            apply in_app_or in E. destruct E as [E|E]; apply in_seq in E; lia. }
-        unfold args. rewrite (app_nth2 (vecs colsA)) by lia. rewrite (app_nth2 (scalars _)) by lia. rewrite LA, LA'.
-        rewrite !app_nth1 by lia. reflexivity.
-      * destruct (Nat.lt_ge_cases q (length colsA + length B + length colsC)) as [H3|H3].
-        -- (* block C *)
-           replace (existsb (Nat.eqb q) mapped) with true
-             by (symmetry; apply existsb_eqb_in; unfold mapped; apply in_or_app; right; apply in_seq; lia).
-           unfold args. rewrite (app_nth2 (vecs colsA)) by lia. rewrite (app_nth2 (scalars _)) by lia. rewrite LA, LA'.
-           rewrite (app_nth2 B) by lia. rewrite (app_nth2 B) by lia.
-           rewrite !app_nth1 by lia. unfold vecs, scalars, at_row.
-           rewrite (nth_indep _ dflt_arr (vec [])) by (rewrite map_length; lia). rewrite (map_nth (fun c => vec c)).
-           rewrite (nth_indep (map _ (map _ colsC)) dflt_arr (scalar (nth i [] 0%Q))) by (rewrite !map_length; lia).
-           rewrite map_map. rewrite (map_nth (fun c => scalar (nth i c 0%Q))). apply qslice_vec.
-        -- (* block D *)
-           replace (existsb (Nat.eqb q) mapped) with false.
-           2:{ symmetry. apply not_true_is_false. intros E. apply existsb_eqb_in in E. unfold mapped in E.
-               apply in_app_or in E. destruct E as [E|E]; apply in_seq in E; lia. }
-           unfold args. rewrite (app_nth2 (vecs colsA)) by lia. rewrite (app_nth2 (scalars _)) by lia. rewrite LA, LA'.
-           rewrite (app_nth2 B) by lia. rewrite (app_nth2 B) by lia.
-           rewrite (app_nth2 (vecs colsC)) by lia. rewrite (app_nth2 (scalars _)) by lia. rewrite LC, LC'. reflexivity.
-Qed.
 
 (* ---- one period's decision for all agents ------------------------------------------------------------------------- *)
 Section Decision.
@@ -673,7 +567,7 @@ Qed.
 End LastDecisionOfTheCode.
 
 (* the decision above is what the regenerated get_discrete_policy_calculator computes on the variable_info of the model *)
-From LCM Require Import Proofs.C18_AxesFilterFree.
+From LCM Require Import Proofs.C18_AxesFilterFree Proofs.C18_AxesSimulation.
 Lemma decision_is_the_policy_calculators (dst dch cst cch : list (string * grid)) uf colsD colsC :
   NoDup (map fst (dst ++ dch ++ cst ++ cch)) ->
   get_discrete_policy_calculator (vi_of dst dch cst cch) (ccv_arr dst dch cst cch uf colsD colsC) None
